@@ -215,6 +215,42 @@ def h_eq(ctx, n, k):
     ctx.require(Iff(found, spec_eq), 'cells collide as dictionary keys exactly when their hashes are equal')
 
 
+def h_pair(ctx, kind, n):
+    """two different cells built in one process that agree in part of what is hashed (same padded data bytes, same data with
+    other references, one a prefix of the other): each reports the hash of its own representation and they are different
+    cells (a hash remembered under a key that does not determine the cell would show here)"""
+    x = ctx.bitstr('x', n)
+    kid = _leaf(ctx, 'k', 5)
+    if kind == 'padded':
+        # B's data is A's completion-tag padded form spelled out: equal data bytes, other length descriptor
+        a = SC(ORD, x, [])
+        b = SC(ORD, cat_bits(x, '1', '0' * ((7 - n) % 8)), [])
+    elif kind == 'padded_refs':
+        a = SC(ORD, x, [kid])
+        b = SC(ORD, cat_bits(x, '1', '0' * ((7 - n) % 8)), [kid])
+    elif kind == 'refs':
+        a = SC(ORD, x, [])
+        b = SC(ORD, x, [kid])
+    elif kind == 'refs2':
+        a = SC(ORD, x, [kid])
+        b = SC(ORD, x, [kid, kid])
+    elif kind == 'prefix':
+        a = SC(ORD, x, [])
+        b = SC(ORD, cat_bits(x, '0'), [])
+    else:
+        raise ValueError(kind)
+    warm(a), warm(b)
+    for order in ((a, b), (b, a)):
+        got = [to_real(c, via='builder') for c in order]
+        for c, r in zip(order, got):
+            ctx.require(r.hash == cell_hash(c, 0), 'two related cells in one process: each has the hash of its own representation')
+            ctx.require(r.calculate_representation_hash() == cell_hash(c, 0), 'two related cells in one process: recomputed hash')
+        ctx.require(Not(got[0] == got[1]) if not isinstance(got[0] == got[1], bool) else not (got[0] == got[1]), 'two related cells in one process: they are different cells')
+
+
+h_pair.symkeys = True          # the code under test may key a table by (symbolic) cell contents
+
+
 def h_depth_limit(ctx, depth):
     x = ctx.bitstr('x', 4)
     sub = to_real(_chain_spec(depth - 1), via='builder')
@@ -257,6 +293,9 @@ def instances(tier, seed):
     for n in (0, 1, 8, 9, 64):
         for k in (0, 1, 2):
             yield 'h_eq', dict(n=n, k=k)
+    for kind in ('padded', 'padded_refs', 'refs', 'refs2', 'prefix'):
+        for n in ((1, 7, 9, 1015) if tier == 'quick' else (1, 2, 3, 6, 7, 9, 15, 17, 1009, 1015)):
+            yield 'h_pair', dict(kind=kind, n=n)
     for d in ((1023, 1024) if tier == 'quick' else (1022, 1023, 1024)):
         yield 'h_depth_limit', dict(depth=d)
 
@@ -271,6 +310,7 @@ BOUNDS = {
     'data bits': 'all contents; every length 0..1023 (quick: each length with one seeded reference count, all 5 counts at the boundary lengths; thorough: all 5120 combinations)',
     'references': '0..4 leaf children with symbolic contents; shape family: ' + ' '.join(SHAPES),
     'routes': ' '.join(ROUTES),
+    'related pairs': 'two cells in one process sharing padded data bytes / data / a prefix, built in both orders',
     'depth': 'chains of depth 255/256 under a symbolic cell; 1022/1023/1024 at the limit',
 }
 OUTSIDE = ['DAG shapes outside the family', 'cells with more than 4 references (C07)', 'exotic cells (C02)']
